@@ -148,7 +148,17 @@ class Ctx:
                 mm = re.match(r"^([A-Za-z0-9_.']+)\s*:", line)
                 if mm:
                     axioms.add(mm.group(1))
-        self.trusted = [
+        chk = ""
+        if ok and self.tier == "thorough":
+            # independent re-check of the compiled theorems and everything they depend on
+            rc2, out2 = sh(["timeout", "3000", "coqchk", "-silent", "-o", "-Q", ".", "Olareg", "Olareg." + name], cwd=COQ, timeout=3100)
+            m2 = re.search(r"\* Axioms:\s*(.*?)\n\s*\n", out2, re.S)
+            chk = "coqchk (independent checker) on %s: %s; axioms: %s" % (name, "ok" if rc2 == 0 else "FAILED", (m2.group(1).strip() if m2 else "?"))
+            if rc2 != 0:
+                ok = False
+                out += "\ncoqchk failed:\n" + out2[-1500:]
+                self.obligations = [(t, False) for t, _ in self.obligations]
+        self.trusted = ([chk] if chk else []) + [
             "Coq 8.16.1 kernel (coqc); vm_compute used for case evaluation and _refuted witnesses; no native_compute",
             "Print Assumptions: %d theorem(s) closed under the global context; axioms: %s"
             % (closed, ", ".join(sorted(axioms)) if axioms else "none"),
